@@ -423,7 +423,7 @@ def cli_bin(repo):
     return b if rc == 0 and os.path.exists(b) else None
 
 
-def search_witness(repo, contract, seed, budget=20):
+def search_witness(repo, contract, seed, budget=20, all_witnesses=False):
     b, err = replay_bin(repo)
     if b is None:
         return dict(error="replay crate does not build against this tree: " + (err or ""))
@@ -434,13 +434,16 @@ def search_witness(repo, contract, seed, budget=20):
             return dict(error="the CLI of this tree does not build")
         env["COPIA_BIN"] = cb
     rc, so, se, _ = run([b, "search", contract, str(seed), str(budget)], timeout=budget + 120, env=env)
+    ws = []
     for ln in so.splitlines():
         if ln.startswith("WITNESS "):
             try:
-                return json.loads(ln[len("WITNESS "):])
+                ws.append(json.loads(ln[len("WITNESS "):]))
             except Exception:
                 pass
-    return None
+    if all_witnesses:
+        return ws
+    return ws[0] if ws else None
 
 
 def twin_validate(pid, spec, repo, tier, seed, out):
@@ -551,8 +554,24 @@ def main():
     # concrete failing input for the same contracts; that is a real counterexample (never a false alarm).
     # Finding none leaves the property UNDECIDED.
     if out.undecided and not out.violations and P.get("fallback_searches"):
+        known0 = load_known()
         for c in P["fallback_searches"]:
-            w = search_witness(repo, c, seed, 8 if tier == "quick" else 40)
+            ws = search_witness(repo, c, seed, 8 if tier == "quick" else 40, all_witnesses=True)
+            if isinstance(ws, dict):
+                ws = [ws]
+            only = P.get("fallback_only_re")
+            w = None
+            for cand in ws or []:
+                if cand.get("error"):
+                    continue
+                if only and not re.search(only, cand.get("what", "")):
+                    continue
+                fake = dict(function=c, messages=[dict(kind="", message=cand.get("what", ""), at="", text="", labels=[])])
+                if any(finding_matches_clause(f, pid, fake, fake["messages"][0]) for f in known0.get("findings", [])
+                       if f.get("function") in (c, "bisync_histories", None)):
+                    continue
+                w = cand
+                break
             if w and not w.get("error"):
                 out.violations.append(dict(unit="fallback-search", function=c, repo_fn=None,
                                            messages=[dict(kind="contract refuted by a concrete input (the proof overlay no longer applies to this function: %s)" % "; ".join(out.undecided)[:300],
@@ -563,10 +582,13 @@ def main():
     # ---- verdict
     known = load_known()
     real = []
+    printed_kf = set()
     for v in out.violations:
         hits, rest = split_known(known, pid, v)
         for kf in hits:
-            print("KNOWN-FINDING: property=%s %s" % (pid, kf["what"]))
+            if kf["what"] not in printed_kf:
+                printed_kf.add(kf["what"])
+                print("KNOWN-FINDING: property=%s %s" % (pid, kf["what"]))
         if hits:
             v["known_finding"] = "; ".join(k["what"] for k in hits)
         if rest and v["messages"]:
